@@ -145,8 +145,15 @@ static bsx::Outcome run_history(const Cfg &c, const std::vector<Op> &ops) {
           if (op.w < 0) nonneg = false;
         }
         (void)normalized;
-      } else if (op.kind == 'C') {
-        h.Clear();
+      } else if (op.kind == 'C' || op.kind == 'I') {
+        // Clear, or Initialize again with the same range on the SAME object: both must give an empty histogram
+        if (op.kind == 'C') h.Clear();
+        else h.Initialize(c.min, c.max, (Index)c.n);
+        if (op.kind == 'I') {
+          if ((long)h.data().y().size() != c.n || h.getStep() != r.step) return failwith("reinitialize-shape", "re-Initialize changed the shape/step");
+          for (long k = 0; k < c.n; k++)
+            if (h.data().y(k) != 0.0) return failwith("reinitialize-keeps-contents", "bin " + std::to_string(k) + " = " + bsx::fmt(h.data().y(k)) + " after Initialize on a used object");
+        }
         for (auto &b : r.bins) b = 0;
         accepted = 0; nonneg = true; normalized = false;
       } else if (op.kind == 'N') {
@@ -287,7 +294,7 @@ int main(int argc, char **argv) {
   R.property = "C13"; R.part = "hist"; R.tier = a.tier;
   bool thorough = a.tier == "thorough";
   int depth = thorough ? 7 : 5;
-  R.rule = "explicit-state BFS over op histories (Process(v,w)/Normalize/Clear) of the real HistogramNew per (min,max,nbins,periodic) "
+  R.rule = "explicit-state BFS over op histories (Process(v,w)/Normalize/Clear/re-Initialize) of the real HistogramNew per (min,max,nbins,periodic) "
            "config: depth-1 over the full value alphabet (bin centres, edges exact/+-1ulp/+-1e-6 step, min-k*range, max+k*range, "
            "+-1e19 step, +-1e300, +-DBL_MAX) x weights {1,0.5,-2}; depth<=" + std::to_string(depth) +
            " over a reduced alphabet; state = canonical bin vector; every transition compared with a reference model; "
@@ -329,6 +336,8 @@ int main(int argc, char **argv) {
     alphaD.push_back({'P', c.min, -2.0});
     alphaD.push_back({'N', 0, 0});
     alphaD.push_back({'C', 0, 0});
+    alphaD.push_back({'I', 0, 0});
+    alpha1.push_back({'I', 0, 0});
     alpha1.push_back({'N', 0, 0});
     alpha1.push_back({'C', 0, 0});
 
